@@ -207,6 +207,11 @@ func emissionLine(kind string, rows []types.Row, late bool) []string {
 //	pttick                           processing time: Trigger()
 func execWindow(c Case) [][][]string {
 	setCfg(&c, "now", itoa(time.Now().UnixNano()))
+	if cfgInt(c, "live", 0) == 1 {
+		// live timestamps: tsBase is moved to half an hour before the wall clock of this run (the Cfg carries a
+		// `tsadd` placeholder that is overwritten in place, like `now`)
+		setCfg(&c, "tsadd", itoa(time.Now().UnixNano()-tsBase-1_800_000_000_000))
+	}
 	tsShift = cfgInt(c, "tsadd", 0)
 	defer func() { tsShift = 0 }()
 	w, err := newWindow(c)
